@@ -72,6 +72,50 @@ fn all_entry_points(data: Vec<u8>, keys: std::sync::Arc<Vec<SignedSecretKey>>) -
     })
 }
 
+/// a signature packet written by hand from the RFC layout, with one well-formed subpacket of every assigned type
+/// (the sweep then makes their inner fields hostile while the outer framing stays consistent)
+fn handmade_signature(v6: bool, in_hashed: bool) -> Vec<u8> {
+    let sp = |t: u8, body: &[u8]| -> Vec<u8> { let mut o = vec![(body.len() + 1) as u8, t]; o.extend_from_slice(body); o };
+    let fp4 = [0x11u8; 20]; let fp6 = [0x22u8; 32];
+    // an embedded signature (type 0x19) body, v4, Ed25519 (algorithm 27: 64 raw octets)
+    let mut emb = vec![4u8, 0x19, 27, 8, 0, 6, 5, 2, 0x65, 0, 0, 0, 0, 0, 0xab, 0xcd]; emb.extend_from_slice(&[0x33u8; 64]);
+    let mut area: Vec<u8> = Vec::new();
+    area.extend(sp(2, &[0x65, 0x53, 0xf1, 0x00])); area.extend(sp(3, &[0, 1, 0, 0])); area.extend(sp(4, &[1])); area.extend(sp(5, &[1, 60]));
+    area.extend(sp(6, b"<[^>]+[@.]example\\.org>$\0")); area.extend(sp(7, &[0])); area.extend(sp(9, &[0, 2, 0, 0])); area.extend(sp(11, &[9, 8, 7]));
+    area.extend(sp(12, &[&[0x80u8, 27][..], &fp4[..]].concat())); area.extend(sp(16, &[1, 2, 3, 4, 5, 6, 7, 8]));
+    area.extend(sp(20, &[&[0x80u8, 0, 0, 0, 0, 11, 0, 5][..], b"n@example.o", b"value"].concat()));
+    area.extend(sp(20, &[&[0u8, 0, 0, 0, 0, 3, 0, 2][..], b"a@b", &[0xff, 0x00]].concat()));
+    area.extend(sp(21, &[10, 8])); area.extend(sp(22, &[2, 1])); area.extend(sp(23, &[0x80])); area.extend(sp(24, b"hkps://keys.example")); area.extend(sp(25, &[1]));
+    area.extend(sp(26, b"https://example.org/policy")); area.extend(sp(27, &[3, 0])); area.extend(sp(28, b"signer@example.org")); area.extend(sp(29, &[&[3u8][..], b"superseded"].concat()));
+    area.extend(sp(30, &[0x09])); area.extend(sp(31, &[&[27u8, 8][..], &[0x44u8; 32][..]].concat())); area.extend(sp(32, &emb));
+    area.extend(sp(33, &[&[4u8][..], &fp4[..]].concat())); area.extend(sp(33, &[&[6u8][..], &fp6[..]].concat())); area.extend(sp(34, &[2, 1]));
+    area.extend(sp(35, &[&[4u8][..], &fp4[..]].concat())); area.extend(sp(35, &[&[6u8][..], &fp6[..]].concat())); area.extend(sp(37, &[0x55u8; 64])); area.extend(sp(39, &[9, 2, 7, 1]));
+    area.extend(sp(10, &[1, 2, 3])); area.extend(sp(101, &[9, 9])); area.extend(sp(0x80 | 2, &[0x65, 0x53, 0xf1, 0x01]));
+    let (h, u): (Vec<u8>, Vec<u8>) = if in_hashed { (area, sp(16, &[1, 2, 3, 4, 5, 6, 7, 8])) } else { (sp(2, &[0x65, 0x53, 0xf1, 0x00]), area) };
+    let mut b = vec![if v6 { 6u8 } else { 4 }, 0x13, 27, 8];
+    if v6 { b.extend((h.len() as u32).to_be_bytes()); } else { b.extend((h.len() as u16).to_be_bytes()); }
+    b.extend_from_slice(&h);
+    if v6 { b.extend((u.len() as u32).to_be_bytes()); } else { b.extend((u.len() as u16).to_be_bytes()); }
+    b.extend_from_slice(&u);
+    b.extend_from_slice(&[0xab, 0xcd]);
+    if v6 { b.push(16); b.extend_from_slice(&[0x66u8; 16]); }
+    b.extend_from_slice(&[0x77u8; 64]);
+    new_header(2, &b)
+}
+
+/// the packet-level entry points over one artifact (cheap: used for the systematic field sweeps)
+fn packet_entry_points(data: Vec<u8>, keys: std::sync::Arc<Vec<SignedSecretKey>>) -> String {
+    watchdog(20, move || {
+        let mut n_ok = 0;
+        for p in PacketParser::new(&data[..]).take(50) { if let Ok(p) = p { n_ok += 1; let _ = p.to_bytes(); let _ = pgp::ser::Serialize::write_len(&p); } }
+        if let Ok(s) = DetachedSignature::from_bytes(&data[..]) { if let Some(k) = keys.get(1) { let _ = s.verify(&SignedPublicKey::from(k.clone()), &b"x"[..]); } let _ = s.to_bytes(); n_ok += 1; }
+        if let Ok(k) = SignedPublicKey::from_bytes(&data[..]) { let _ = k.verify_bindings(); let _ = k.to_bytes(); n_ok += 1; }
+        if let Ok(k) = SignedSecretKey::from_bytes(&data[..]) { let _ = k.to_bytes(); n_ok += 1; }
+        if let Ok(mut m) = Message::from_bytes(&data[..]) { let mut o = Vec::new(); let _ = m.read_to_end(&mut o); n_ok += 1; }
+        format!("returned ({n_ok} accepted)")
+    })
+}
+
 fn main() {
     quiet_panics();
     let cli = cli();
@@ -314,6 +358,47 @@ fn main() {
                 }
             }
             blob(&mut cx, d, "mutated-fixture");
+        }
+    }
+
+    // ---- 6. every two- and four-octet window of model-generated packets (every packet grammar, signatures with every
+    //         subpacket kind) at its extremes: inner length fields that claim far more than is there, alone and next to
+    //         another length field (sums that wrap)
+    if let Ok(path) = std::env::var("VERIF_PREGEN") {
+        let mut packets: Vec<Vec<u8>> = Vec::new();
+        if let Ok(t) = std::fs::read_to_string(&path) { for line in t.lines() { if let Some(o) = line.split('\t').nth(1) { if o.len() > 8 && !o.starts_with("NONE") && !o.starts_with("MODEL") { packets.push(unhx(o)); } } } }
+        let sweep = |cx: &mut Ctx, data: Vec<u8>, cls: &str| {
+            let r = packet_entry_points(data.clone(), keys.clone());
+            let ok = !(r.starts_with("PANIC") || r == "TIMEOUT");
+            // only failures carry the artifact: the sweep is systematic and replays by regeneration otherwise
+            if ok { cx.out.case("", &[], &["sweep".into(), cls.into()], &r, Some(true), cls); } else { cx.out.case("", &[], &["blob".into(), hx(&data)], &r, Some(false), cls); }
+        };
+        // signatures written by hand with one subpacket of every assigned type, in the hashed and in the unhashed area, v4 and v6
+        for (v6, hashed) in [(false, true), (false, false), (true, true)] {
+            let p = handmade_signature(v6, hashed);
+            let r = packet_entry_points(p.clone(), keys.clone());
+            cx.out.case("", &[], &["blob".into(), hx(&p)], &r, Some(r.starts_with("returned") && !r.contains("(0 accepted)")), "handmade-signature-parses");
+            packets.push(p);
+        }
+        for p in packets.iter().filter(|p| p.len() <= 1200) {
+            let hl = if p.len() > 1 && p[1] < 192 { 2 } else if p.len() > 1 && p[1] < 224 { 3 } else { 6 };
+            for o in hl..p.len().saturating_sub(1) {
+                for v in [[0xffu8, 0xff], [0x80, 0x00], [0xff, 0xfe]] {
+                    let mut d = p.clone(); d[o] = v[0]; d[o + 1] = v[1];
+                    sweep(&mut cx, d, "field-extremes-2");
+                }
+                if o + 4 <= p.len() {
+                    for v in [[0xffu8, 0xff, 0xff, 0xff], [0x80, 0, 0, 0], [0, 1, 0, 0]] {
+                        let mut d = p.clone(); d[o..o + 4].copy_from_slice(&v);
+                        sweep(&mut cx, d, "field-extremes-4");
+                    }
+                    // two adjacent two-octet fields
+                    for v in [[0xffu8, 0xff, 0x00, 0x01], [0x80, 0x00, 0x80, 0x00], [0x00, 0x01, 0xff, 0xff]] {
+                        let mut d = p.clone(); d[o..o + 4].copy_from_slice(&v);
+                        sweep(&mut cx, d, "field-extremes-2x2");
+                    }
+                }
+            }
         }
     }
     cx.out.finish();
